@@ -145,6 +145,7 @@ fault_parse(const char *s, fault_t *f)
 /* --model synth-semi|synth-ms|synth-mixw: parameter files written by the harness (synth_model.h), so that the loaders
  * the bundled models never select (s2_semi_mgau, ms_mgau/ms_senone, ptm_mgau from mixture_weights) meet damaged files */
 static int SYNTH_MS, SYNTH, HAS_CHKSUM;
+static size_t HDR_END, COUNT_BYTES; /* where the count words of a file without a checksum are (senone dump: rows, columns) */
 static void
 synth_cleanup(void)
 {
@@ -250,7 +251,8 @@ run_fault(const fault_t *f)
         int rc = probe(d, got, sizeof got);
         accepted = 1;
         /* only a file that carries a checksum can be expected to notice damaged DATA; the senone dump has none */
-        if (rc == 0 && strcmp(got, INTACT) != 0 && !IS_FEATPARAMS && HAS_CHKSUM) {
+        if (rc == 0 && strcmp(got, INTACT) != 0 && !IS_FEATPARAMS
+            && (HAS_CHKSUM || (f->kind == FK_WORD && f->off >= HDR_END && f->off < HDR_END + COUNT_BYTES))) {
             mc_viol("C17/damaged-file-accepted-and-changes-results", cd, "initialisation succeeded with the damaged file and the probe decodes to %s instead of %s", got,
                     INTACT);
         }
@@ -413,6 +415,8 @@ main(int argc, char **argv)
             decoder_free(d);
         release_heaps();
     }
+    HDR_END = header_end();
+    COUNT_BYTES = strcmp(TARGET, "sendump") == 0 ? 8 : 0;
     if (cas) {
         fault_t f;
         if (fault_parse(cas, &f) < 0)
